@@ -94,7 +94,7 @@ static void *cycle_thread(void *arg)
 /* reader || writer on one child */
 static reproc_t *shared;
 static int rw_pause_ms;
-#define BIG (256 * 1024)
+#define BIG (1024 * 1024)   /* more than the two pipes and the child can hold: reader and writer must make progress together */
 static void *writer(void *arg)
 {
   (void) arg;
